@@ -743,13 +743,44 @@ func NormalizeProjectName(s string) string {
 	return strings.TrimLeft(s, "_-")
 }
 
+// userDefinedKeys lists the mappings whose keys are chosen by the user (names of services and resources, labels,
+// variables, options ...): a key starting with `x-` is an entry like any other there, not an extension
 var userDefinedKeys = []tree.Path{
 	"services",
+	"services.*.annotations",
+	"services.*.build.additional_contexts",
+	"services.*.build.args",
+	"services.*.build.extra_hosts",
+	"services.*.build.labels",
+	"services.*.build.ssh",
 	"services.*.depends_on",
+	"services.*.deploy.labels",
+	"services.*.deploy.resources.reservations.devices.*.options",
+	"services.*.develop.watch.*.exec.environment",
+	"services.*.environment",
+	"services.*.extra_hosts",
+	"services.*.gpus.*.options",
+	"services.*.labels",
+	"services.*.logging.options",
+	"services.*.networks",
+	"services.*.networks.*.driver_opts",
+	"services.*.post_start.*.environment",
+	"services.*.pre_stop.*.environment",
+	"services.*.storage_opt",
+	"services.*.sysctls",
 	"volumes",
+	"volumes.*.driver_opts",
+	"volumes.*.labels",
 	"networks",
+	"networks.*.driver_opts",
+	"networks.*.ipam.config.*.aux_addresses",
+	"networks.*.ipam.options",
+	"networks.*.labels",
 	"secrets",
+	"secrets.*.driver_opts",
+	"secrets.*.labels",
 	"configs",
+	"configs.*.labels",
 }
 
 func processExtensions(dict map[string]any, p tree.Path, extensions map[string]any) (map[string]interface{}, error) {
